@@ -72,15 +72,24 @@ Definition stags (sz : sanz) (t : tags) : tags := map (fun kv => (sk sz (fst kv)
    (joinable prefix) ++ name. *)
 Definition jn (sep p : bytes) : bytes := match p with [] => [] | _ => p ++ sep end.
 
-(* a metric object is identified by its scope (joinable prefix, tags) and its
-   (sanitized) name in that scope *)
-Definition key := (bytes * tags * bytes)%type.
+(* a scope is identified by its (joinable prefix, tags) *)
+Definition scope := (bytes * tags)%type.
+(* a metric object is identified by its scope, its (sanitized) name in that
+   scope and the epoch of the scope's metric tables: a closed scope's tables
+   are cleared when a report pass drops it from the registry (clearMetrics);
+   a name requested afterwards is a new metric *)
+Definition key := (bytes * tags * bytes * nat)%type.
+Definition mkkey (sc : scope) (n : bytes) (e : nat) : key := (fst sc, snd sc, n, e).
+Definition kpre (k : key) : bytes := fst (fst (fst k)).
+Definition ktags (k : key) : tags := snd (fst (fst k)).
+Definition knm (k : key) : bytes := snd (fst k).
+Definition kep (k : key) : nat := snd k.
 Definition tags_eqb : tags -> tags -> bool :=
   list_eqb (fun a b => zs_eqb (fst a) (fst b) && zs_eqb (snd a) (snd b)).
+Definition scope_eqb (a b : scope) : bool := zs_eqb (fst a) (fst b) && tags_eqb (snd a) (snd b).
 Definition key_eqb (a b : key) : bool :=
-  zs_eqb (fst (fst a)) (fst (fst b)) && tags_eqb (snd (fst a)) (snd (fst b)) && zs_eqb (snd a) (snd b).
-Definition kfq (k : key) : bytes := fst (fst k) ++ snd k.   (* fullyQualifiedName *)
-Definition ktags (k : key) : tags := snd (fst k).
+  zs_eqb (kpre a) (kpre b) && tags_eqb (ktags a) (ktags b) && zs_eqb (knm a) (knm b) && Nat.eqb (kep a) (kep b).
+Definition kfq (k : key) : bytes := kpre k ++ knm k.   (* fullyQualifiedName *)
 Definition flat (t : tags) : list bytes := flat_map (fun kv => [fst kv; snd kv]) t.
 (* what a reporter sees: the fully qualified name, then the tags *)
 Definition kstrs (k : key) : list bytes := kfq k :: flat (ktags k).
@@ -105,6 +114,45 @@ Definition sat64 (z : Z) : Z :=            (* time.Time.Sub saturates *)
 Definition wrap64 (z : Z) : Z :=
   (z + 9223372036854775808) mod 18446744073709551616 - 9223372036854775808.
 
+(* ---------- the registry's view of scopes (Close, report passes) ---------- *)
+Record reg := Reg {
+  r_root : scope;
+  r_known : list scope;          (* every scope created so far, once each *)
+  r_ep : list (scope * nat);     (* how often each scope's metric tables were cleared (first entry wins) *)
+  r_closed : list scope;         (* Close()d and still in the registry *)
+  r_dropped : list scope;        (* no longer in the registry *)
+  r_rootclosed : bool
+}.
+Definition smem (sc : scope) (l : list scope) : bool := existsb (scope_eqb sc) l.
+Fixpoint ep_of (ep : list (scope * nat)) (sc : scope) : nat :=
+  match ep with
+  | [] => 0%nat
+  | (s, n) :: r => if scope_eqb sc s then n else ep_of r sc
+  end.
+Definition bump (ep : list (scope * nat)) (sc : scope) : list (scope * nat) := (sc, S (ep_of ep sc)) :: ep.
+Definition reg_init (root : scope) : reg := Reg root [root] [] [] [] false.
+(* registry.Subscope creating (or finding) a scope *)
+Definition reg_note (r : reg) (sc : scope) : reg :=
+  if smem sc (r_known r) then r
+  else Reg (r_root r) (r_known r ++ [sc]) (r_ep r) (r_closed r) (r_dropped r) (r_rootclosed r).
+(* Close() of a scope other than the root: a flag, until the next report pass *)
+Definition reg_close (r : reg) (sc : scope) : reg :=
+  if r_rootclosed r || smem sc (r_closed r) || smem sc (r_dropped r) then r
+  else Reg (r_root r) (r_known r) (r_ep r) (sc :: r_closed r) (r_dropped r) (r_rootclosed r).
+(* a report pass drops the closed scopes and clears their tables (test scopes
+   are never reported, hence never dropped) *)
+Definition reg_pass (test : bool) (r : reg) : reg :=
+  if test then r
+  else Reg (r_root r) (r_known r) (fold_left bump (r_closed r) (r_ep r)) []
+           (r_dropped r ++ r_closed r) (r_rootclosed r).
+(* Close() of the root: final report pass, then purgeIfRootClosed - every
+   scope still registered is closed, cleared and dropped *)
+Definition reg_rootclose (test : bool) (r : reg) : reg :=
+  if test then Reg (r_root r) (r_known r) (r_ep r) (r_closed r) (r_dropped r) true
+  else
+    let live := filter (fun sc => negb (smem sc (r_dropped r))) (r_known r) in
+    Reg (r_root r) (r_known r) (fold_left bump live (r_ep r)) [] (r_dropped r ++ live) true.
+
 (* ---------- state ---------- *)
 (* FBoth: a root scope given both a plain and a cached reporter.  Metrics are
    allocated on the cached reporter, timers go to their cached handle only,
@@ -112,6 +160,7 @@ Definition wrap64 (z : Z) : Z :=
 Inductive flavour := FPlain | FCached | FTest | FBoth.
 Definition has_cached (fl : flavour) : bool :=
   match fl with FCached | FBoth => true | _ => false end.
+Definition is_test (fl : flavour) : bool := match fl with FTest => true | _ => false end.
 
 Record tobj := TObj { tkey : key; tcid : Z; tunrep : list Z }.
 Record cobj := CObj { ckey : key; ccid : Z; cpend : Z }.
@@ -119,7 +168,7 @@ Record hobj := HObj { hkey : key; hspec : list Z; hcid : Z; hbid : Z; hh : hist 
 Inductive recorder := RTimer (o : nat) | RHist (o : nat).
 
 Record state := State {
-  scopes : list (bytes * tags);          (* scope handle -> (prefix, tags) *)
+  scopes : list scope;                   (* scope handle -> (prefix, tags) *)
   timers : list tobj;                    (* timer objects, in creation order *)
   thand : list nat;                      (* timer handle -> object *)
   counters : list cobj;
@@ -131,44 +180,46 @@ Record state := State {
   rnh : Z; rnb : Z;                      (* the recording cached reporter's next handle / bucket id *)
   log : list ev;                         (* the reporter's call log *)
   fruns : list (nat * bool);             (* invocations of instrumented functions: (call handle, outcome) *)
-  rets : list bool                       (* what each Exec returned (true = the function's error) *)
+  rets : list bool;                      (* what each Exec returned (true = the function's error) *)
+  sreg : reg                             (* which scopes are closed / dropped, table epochs *)
 }.
 
 Definition set_scopes (s : state) v : state :=
-  State v (timers s) (thand s) (counters s) (hists s) (hhand s) (sws s) (calls s) (nclk s) (rnh s) (rnb s) (log s) (fruns s) (rets s).
+  State v (timers s) (thand s) (counters s) (hists s) (hhand s) (sws s) (calls s) (nclk s) (rnh s) (rnb s) (log s) (fruns s) (rets s) (sreg s).
 Definition set_timers (s : state) v : state :=
-  State (scopes s) v (thand s) (counters s) (hists s) (hhand s) (sws s) (calls s) (nclk s) (rnh s) (rnb s) (log s) (fruns s) (rets s).
+  State (scopes s) v (thand s) (counters s) (hists s) (hhand s) (sws s) (calls s) (nclk s) (rnh s) (rnb s) (log s) (fruns s) (rets s) (sreg s).
 Definition set_thand (s : state) v : state :=
-  State (scopes s) (timers s) v (counters s) (hists s) (hhand s) (sws s) (calls s) (nclk s) (rnh s) (rnb s) (log s) (fruns s) (rets s).
+  State (scopes s) (timers s) v (counters s) (hists s) (hhand s) (sws s) (calls s) (nclk s) (rnh s) (rnb s) (log s) (fruns s) (rets s) (sreg s).
 Definition set_counters (s : state) v : state :=
-  State (scopes s) (timers s) (thand s) v (hists s) (hhand s) (sws s) (calls s) (nclk s) (rnh s) (rnb s) (log s) (fruns s) (rets s).
+  State (scopes s) (timers s) (thand s) v (hists s) (hhand s) (sws s) (calls s) (nclk s) (rnh s) (rnb s) (log s) (fruns s) (rets s) (sreg s).
 Definition set_hists (s : state) v : state :=
-  State (scopes s) (timers s) (thand s) (counters s) v (hhand s) (sws s) (calls s) (nclk s) (rnh s) (rnb s) (log s) (fruns s) (rets s).
+  State (scopes s) (timers s) (thand s) (counters s) v (hhand s) (sws s) (calls s) (nclk s) (rnh s) (rnb s) (log s) (fruns s) (rets s) (sreg s).
 Definition set_hhand (s : state) v : state :=
-  State (scopes s) (timers s) (thand s) (counters s) (hists s) v (sws s) (calls s) (nclk s) (rnh s) (rnb s) (log s) (fruns s) (rets s).
+  State (scopes s) (timers s) (thand s) (counters s) (hists s) v (sws s) (calls s) (nclk s) (rnh s) (rnb s) (log s) (fruns s) (rets s) (sreg s).
 Definition set_sws (s : state) v : state :=
-  State (scopes s) (timers s) (thand s) (counters s) (hists s) (hhand s) v (calls s) (nclk s) (rnh s) (rnb s) (log s) (fruns s) (rets s).
+  State (scopes s) (timers s) (thand s) (counters s) (hists s) (hhand s) v (calls s) (nclk s) (rnh s) (rnb s) (log s) (fruns s) (rets s) (sreg s).
 Definition set_calls (s : state) v : state :=
-  State (scopes s) (timers s) (thand s) (counters s) (hists s) (hhand s) (sws s) v (nclk s) (rnh s) (rnb s) (log s) (fruns s) (rets s).
+  State (scopes s) (timers s) (thand s) (counters s) (hists s) (hhand s) (sws s) v (nclk s) (rnh s) (rnb s) (log s) (fruns s) (rets s) (sreg s).
 Definition set_nclk (s : state) v : state :=
-  State (scopes s) (timers s) (thand s) (counters s) (hists s) (hhand s) (sws s) (calls s) v (rnh s) (rnb s) (log s) (fruns s) (rets s).
+  State (scopes s) (timers s) (thand s) (counters s) (hists s) (hhand s) (sws s) (calls s) v (rnh s) (rnb s) (log s) (fruns s) (rets s) (sreg s).
 Definition set_rnh (s : state) v : state :=
-  State (scopes s) (timers s) (thand s) (counters s) (hists s) (hhand s) (sws s) (calls s) (nclk s) v (rnb s) (log s) (fruns s) (rets s).
+  State (scopes s) (timers s) (thand s) (counters s) (hists s) (hhand s) (sws s) (calls s) (nclk s) v (rnb s) (log s) (fruns s) (rets s) (sreg s).
 Definition set_rnb (s : state) v : state :=
-  State (scopes s) (timers s) (thand s) (counters s) (hists s) (hhand s) (sws s) (calls s) (nclk s) (rnh s) v (log s) (fruns s) (rets s).
+  State (scopes s) (timers s) (thand s) (counters s) (hists s) (hhand s) (sws s) (calls s) (nclk s) (rnh s) v (log s) (fruns s) (rets s) (sreg s).
 Definition set_log (s : state) v : state :=
-  State (scopes s) (timers s) (thand s) (counters s) (hists s) (hhand s) (sws s) (calls s) (nclk s) (rnh s) (rnb s) v (fruns s) (rets s).
+  State (scopes s) (timers s) (thand s) (counters s) (hists s) (hhand s) (sws s) (calls s) (nclk s) (rnh s) (rnb s) v (fruns s) (rets s) (sreg s).
 Definition set_fruns (s : state) v : state :=
-  State (scopes s) (timers s) (thand s) (counters s) (hists s) (hhand s) (sws s) (calls s) (nclk s) (rnh s) (rnb s) (log s) v (rets s).
+  State (scopes s) (timers s) (thand s) (counters s) (hists s) (hhand s) (sws s) (calls s) (nclk s) (rnh s) (rnb s) (log s) v (rets s) (sreg s).
 Definition set_rets (s : state) v : state :=
-  State (scopes s) (timers s) (thand s) (counters s) (hists s) (hhand s) (sws s) (calls s) (nclk s) (rnh s) (rnb s) (log s) (fruns s) v.
-
+  State (scopes s) (timers s) (thand s) (counters s) (hists s) (hhand s) (sws s) (calls s) (nclk s) (rnh s) (rnb s) (log s) (fruns s) v (sreg s).
+Definition set_sreg (s : state) v : state :=
+  State (scopes s) (timers s) (thand s) (counters s) (hists s) (hhand s) (sws s) (calls s) (nclk s) (rnh s) (rnb s) (log s) (fruns s) (rets s) v.
 
 Definition add_log (s : state) (x : list ev) : state := set_log s (log s ++ x).
 
 Definition init (sz : sanz) (root : bytes * tags) : state :=
-  State [(jn (sepz sz) (sn sz (fst root)), tmerge [] (stags sz (snd root)))]
-        [] [] [] [] [] [] [] 0%nat 0 0 [] [] [].
+  let r := (jn (sepz sz) (sn sz (fst root)), tmerge [] (stags sz (snd root))) in
+  State [r] [] [] [] [] [] [] [] 0%nat 0 0 [] [] [] (reg_init r).
 
 (* ---------- get-or-create (scope.Timer / Counter / Histogram) ---------- *)
 Definition tkeys (s : state) : list key := map tkey (timers s).
@@ -277,24 +328,29 @@ Inductive op :=
 | OHStart (h : nat)                          (* new stopwatch handle := hists[h].Start() *)
 | OStop (w : nat)                            (* sws[w].Stop() *)
 | OCall (s : nat) (n : bytes)                (* new call handle := instrument.NewCall(scopes[s], n) *)
-| OExec (c : nat) (e : bool).                (* calls[c].Exec(f), f returning an error iff e *)
+| OExec (c : nat) (e : bool)                 (* calls[c].Exec(f), f returning an error iff e *)
+| OClose (s : nat).                          (* scopes[s].Close() (the root: final report, everything dropped) *)
 
 Definition step (sz : sanz) (fl : flavour) (clk : nat -> Z) (s : state) (o : op) : state :=
   match o with
   | OSub i p =>
       match nth_error (scopes s) i with
-      | Some sc => set_scopes s (scopes s ++ [(jn (sepz sz) (fst sc ++ sn sz p), snd sc)])
+      | Some sc =>
+          let v := (jn (sepz sz) (fst sc ++ sn sz p), snd sc) in
+          set_sreg (set_scopes s (scopes s ++ [v])) (reg_note (sreg s) v)
       | None => s
       end
   | OTag i t =>
       match nth_error (scopes s) i with
-      | Some sc => set_scopes s (scopes s ++ [(fst sc, tmerge (snd sc) (stags sz t))])
+      | Some sc =>
+          let v := (fst sc, tmerge (snd sc) (stags sz t)) in
+          set_sreg (set_scopes s (scopes s ++ [v])) (reg_note (sreg s) v)
       | None => s
       end
   | OTimer i n =>
       match nth_error (scopes s) i with
       | Some sc =>
-          let r := get_timer fl s (fst sc, snd sc, sn sz n) in
+          let r := get_timer fl s (mkkey sc (sn sz n) (ep_of (r_ep (sreg s)) sc)) in
           set_thand (fst r) (thand (fst r) ++ [snd r])
       | None => s
       end
@@ -303,7 +359,9 @@ Definition step (sz : sanz) (fl : flavour) (clk : nat -> Z) (s : state) (o : op)
       | Some oi => deliver fl s oi d
       | None => s
       end
-  | OPass => pass fl s
+  | OPass =>
+      if r_rootclosed (sreg s) then s           (* reportLoopRun: nothing once the root is closed *)
+      else let s1 := pass fl s in set_sreg s1 (reg_pass (is_test fl) (sreg s1))
   | OStart t =>
       match nth_error (thand s) t with
       | Some oi => set_nclk (set_sws s (sws s ++ [(RTimer oi, clk (nclk s))])) (S (nclk s))
@@ -312,7 +370,7 @@ Definition step (sz : sanz) (fl : flavour) (clk : nat -> Z) (s : state) (o : op)
   | OHist i n spec =>
       match nth_error (scopes s) i with
       | Some sc =>
-          let r := get_hist fl s (fst sc, snd sc, sn sz n) spec in
+          let r := get_hist fl s (mkkey sc (sn sz n) (ep_of (r_ep (sreg s)) sc)) spec in
           set_hhand (fst r) (hhand (fst r) ++ [snd r])
       | None => s
       end
@@ -335,10 +393,15 @@ Definition step (sz : sanz) (fl : flavour) (clk : nat -> Z) (s : state) (o : op)
   | OCall i n =>
       match nth_error (scopes s) i with
       | Some sc =>
-          let r1 := get_counter fl s (fst sc, tmerge (snd sc) (stags sz [(RESULT_TYPE, R_ERROR)]), sn sz n) in
-          let r2 := get_counter fl (fst r1) (fst sc, tmerge (snd sc) (stags sz [(RESULT_TYPE, R_SUCCESS)]), sn sz n) in
-          let r3 := get_timer fl (fst r2) (jn (sepz sz) (fst sc ++ sn sz n), snd sc, sn sz LATENCY) in
-          set_calls (fst r3) (calls (fst r3) ++ [(snd r1, snd r2, snd r3)])
+          let ce := (fst sc, tmerge (snd sc) (stags sz [(RESULT_TYPE, R_ERROR)])) in
+          let cs := (fst sc, tmerge (snd sc) (stags sz [(RESULT_TYPE, R_SUCCESS)])) in
+          let cl := (jn (sepz sz) (fst sc ++ sn sz n), snd sc) in
+          let ep := r_ep (sreg s) in
+          let r1 := get_counter fl s (mkkey ce (sn sz n) (ep_of ep ce)) in
+          let r2 := get_counter fl (fst r1) (mkkey cs (sn sz n) (ep_of ep cs)) in
+          let r3 := get_timer fl (fst r2) (mkkey cl (sn sz LATENCY) (ep_of ep cl)) in
+          let s4 := set_calls (fst r3) (calls (fst r3) ++ [(snd r1, snd r2, snd r3)]) in
+          set_sreg s4 (reg_note (reg_note (reg_note (sreg s4) ce) cs) cl)
       | None => s
       end
   | OExec c e =>
@@ -350,6 +413,15 @@ Definition step (sz : sanz) (fl : flavour) (clk : nat -> Z) (s : state) (o : op)
           let s2 := deliver fl (set_nclk s1 (S (nclk s1))) ti d in
           let s3 := inc_counter s2 (if e then ce else cs) in
           set_rets s3 (rets s3 ++ [e])
+      | None => s
+      end
+  | OClose i =>
+      match nth_error (scopes s) i with
+      | Some sc =>
+          if r_rootclosed (sreg s) then s
+          else if scope_eqb sc (r_root (sreg s))
+          then let s1 := pass fl s in set_sreg s1 (reg_rootclose (is_test fl) (sreg s1))
+          else set_sreg s (reg_close (sreg s) sc)
       | None => s
       end
   end.
